@@ -137,10 +137,11 @@ example :
     (run prog (Cfg.init fun _ => 0) (seqSched prog 3)).mem ("residuals", 2) = 11 ∧
     (run prog (Cfg.init fun _ => 0) (seqSched prog 3)).mem ("residuals", 0) = 10 := by decide
 
-/-- **The pinned D-iteration sweep is not deterministic**: its descriptor fails the check, and the two-iteration loop
+/-- (witness kept from the pinned tree; the loop was repaired by f865d31a and is no longer generated, so this is an
+    `example`, not a counted theorem) The pinned D-iteration sweep was not deterministic: its descriptor fails the check, and the two-iteration loop
     in which both iterations execute `fluid[0] += 1` (a load then a store, both instances of the descriptor's
     `fluid[j]` sites) ends with `fluid[0] = 2` under one schedule and `fluid[0] = 1` under another. -/
-theorem diteration_not_deterministic :
+example :
     diterationLoop.raceFree = false ∧
     ConformsTo diterationLoop (fun _ => 0) lostUpdateProg ∧
     (run lostUpdateProg (Cfg.init fun _ => 0) [0, 0, 1, 1]).mem ("fluid", 0) = 2 ∧
@@ -156,7 +157,7 @@ theorem diteration_not_deterministic :
   · simp at he
 
 /-- and it is indeed a race in the semantic sense -/
-theorem diteration_witness_not_raceFree : ¬ RaceFree lostUpdateProg := lostUpdate_not_raceFree
+example : ¬ RaceFree lostUpdateProg := lostUpdate_not_raceFree
 
 /-- **Exact reductions do not depend on the order of combination**: any permutation of the per-iteration
     contributions folds to the same value (`n_triangles += …` on a C `long`). -/
@@ -256,7 +257,9 @@ variable {Inp : Type}
     it assigns on every exit; whatever it reads before assigning it never assigns), and `sem` any implementation
     that conforms to it (it looks only at `readsFirst` and its input — which includes the state of the
     environment's generator —, assigns between `mustWrite` and `mayWrite`, normalises parameters idempotently).
-    Then for every history `ops` of `fit` calls on arbitrary inputs and `set_params` on setable parameters, starting
+    Then for every history `ops` of `fit` calls on arbitrary inputs, of `fit` calls that *raised* after assigning any
+    subset of `mayWrite` (`Op.fitRaise`), and of `set_params` on setable parameters (those `__init__` stores unchanged; for
+    the others see `history_independent_setparams_full` below), starting
     from the object built with parameters `p`: `fit` on `x` leaves the object, on every attribute that is not an
     append-only log, exactly as it leaves a freshly constructed object with the current parameters. -/
 theorem history_independent (e : Est) (hok : e.coreOK = true) (sem : Sem e Inp) (c0 p : Store)
@@ -381,6 +384,107 @@ theorem coreOK_tight (e : Est) (hwf : ∀ b, b ∈ e.mustWrite → b ∈ e.mayWr
 example : louvainPinned.coreOK = false ∧ (louvainPinned.mustWrite.all fun b => louvainPinned.mayWrite.contains b) = true ∧
     (louvainPinned.readsFirst.all fun a => !(louvainPinned.logs.contains a)) = true := by decide
 
+
+/-- **Full statement for `set_params`** (every parameter `Algorithm.set_params` accepts, `__init__` canonicalising the
+    derived ones with an arbitrary function `canon` while `set_params` stores the raw value). It is **false**
+    (`set_params_on_derived_not_history_independent`): what is proved is `history_independent`, where `set_params`
+    touches only parameters that `__init__` stores unchanged. The classes that still have derived accepted parameters
+    are listed in the evidence (`set_params_on_derived`) and exercised by the harness with non-canonical values. -/
+def history_independent_setparams_full : Prop :=
+  ∀ (e : Est), e.coreOK = true → ∀ (canon : String → Estimator.Val → Estimator.Val) (sem : Sem e Unit) (c0 p : Store)
+    (ops : List (Op Unit)), (∀ op ∈ ops, op.wfAccepted e) → ∀ (a : String), a ∉ e.logs → a ∉ e.acceptedAttrs →
+    sem.fit (sem.run (e.freshCanon canon c0 p) ops) () a = sem.fit (e.freshCanon canon c0 (paramsAfter p ops)) () a
+
+/-- **`set_params` on a canonicalised parameter breaks history independence** (the pinned Louvain `modularity`,
+    Propagation `n_iter`, RankClassifier `n_jobs`, HITS / PCA `solver`; repaired in /repo by storing the raw argument and
+    canonicalising where `fit` uses it, which makes the parameter `setable`): the description passes `coreOK`, the
+    operation is accepted, and the implementation that labels with the value of the attribute gives the raw value 3 after
+    `set_params`, while the constructor would have stored `canon 3 = 1`. -/
+theorem set_params_on_derived_not_history_independent : ¬ history_independent_setparams_full := by
+  intro h
+  have := h derivedParamShape (by decide) (fun _ v => v % 2) derivedSem (fun _ => 0) (fun _ => 0)
+    [.setParam "modularity" 3] (by
+      intro op hop
+      simp only [List.mem_cons, List.not_mem_nil, or_false] at hop
+      subst hop
+      exact Or.inr (by decide)) "labels_" (by decide) (by decide)
+  revert this
+  decide
+
+/-- what is proved about `set_params`: `history_independent` restricted to the parameters `__init__` stores unchanged
+    (`Op.wf`); missing: the derived parameters of the statement above. -/
+theorem history_independent_setparams_partial {Inp : Type} (e : Est) (hok : e.coreOK = true) (sem : Sem e Inp)
+    (c0 p : Store) (ops : List (Op Inp)) (hops : ∀ op ∈ ops, op.wf e) (x : Inp) (a : String) (ha : a ∉ e.logs) :
+    sem.fit (sem.run (e.fresh c0 p) ops) x a = sem.fit (e.fresh c0 (paramsAfter p ops)) x a :=
+  history_independent e hok sem c0 p ops hops x a ha
+
+/-- **The generated obligation of a class implies the hypothesis of `history_independent` for the flattened
+    description** — the object together with the attribute objects it refits (`self.solver`, `self._clustering_method`,
+    `self.algorithm`), their attributes named `attr.x`, as the phases of `Est.seq` — and for the class's own description. -/
+theorem staticOK_implies_flat_coreOK (tbl : List Est) (fuel : Nat) (e : Est) (h : e.staticOK tbl fuel = true) :
+    e.coreOK = true ∧ ∃ f, e.flatten tbl fuel = some f ∧ f.coreOK = true := by
+  unfold Est.staticOK at h
+  rw [Bool.and_eq_true] at h
+  refine ⟨historyOK_coreOK tbl fuel e h.1, ?_⟩
+  have h2 := h.2
+  unfold Est.flatOK at h2
+  cases hf : e.flatten tbl fuel with
+  | none => simp [hf] at h2
+  | some f => exact ⟨f, rfl, by simpa [hf] using h2⟩
+
+/-- … hence history independence of every implementation of the flattened description (built from implementations of
+    the phases with `Sem.seq`, see `history_independent_seq`). -/
+theorem history_independent_flat {Inp : Type} (tbl : List Est) (fuel : Nat) (e f : Est)
+    (hf : e.flatten tbl fuel = some f) (hs : e.staticOK tbl fuel = true) (sem : Sem f Inp) (c0 p : Store)
+    (ops : List (Op Inp)) (hops : ∀ op ∈ ops, op.wf f) (x : Inp) (a : String) (ha : a ∉ f.logs) :
+    sem.fit (sem.run (f.fresh c0 p) ops) x a = sem.fit (f.fresh c0 (paramsAfter p ops)) x a := by
+  obtain ⟨_, f', hf', hok⟩ := staticOK_implies_flat_coreOK tbl fuel e hs
+  rw [hf] at hf'
+  cases hf'
+  exact history_independent f hok sem c0 p ops hops x a ha
+
+/-- the shape of `HITS`: a solver object created by `__init__`, refitted on every path, then read -/
+def hitsShape : Est :=
+  { name := "HitsShape", params := ["solver"], init := [("solver", .obj "SolverShape"), ("scores_", .const)],
+    readsFirst := ["solver"], mayWrite := ["scores_"], mustWrite := ["scores_"], deep := [("solver", "SolverShape")],
+    logs := [], normalised := [], rng := [], subs := [], blind := [], deepAlways := ["solver"] }
+
+def solverShape : Est :=
+  { name := "SolverShape", params := ["tol"], init := [("tol", .param "tol"), ("values_", .const)],
+    readsFirst := ["tol"], mayWrite := ["values_"], mustWrite := ["values_"], deep := [], logs := [],
+    normalised := [], rng := [], subs := [], blind := [] }
+
+/-- non-vacuity: the flattened description exists, names the solver's attributes `solver.x`, and passes; a solver that may
+    leave `values_` untouched makes the flattened check fail although the class's own lists look fine -/
+example : hitsShape.staticOK [hitsShape, solverShape] 3 = true ∧
+    (hitsShape.flatten [hitsShape, solverShape] 3).map (·.mustWrite) = some ["solver.values_", "scores_"] := by decide
+
+example : hitsShape.staticOK [hitsShape, { solverShape with mustWrite := [] }] 3 = false := by decide
+
+/-! ### random sources -/
+
+/-- **Same input, same seed, same state of numpy's global generator ⇒ same result, whatever the caller cannot
+    control.** For a description all of whose random sources are `ok` (generator created from the seed attribute at
+    each fit, from a constant, or numpy's global generator, whose state is part of the input), every implementation
+    that draws only through its declared sources (`RSem`) returns the same object for any two values of the
+    uncontrollable argument `ent` (operating-system entropy, libc `rand()`, ARPACK's own generator): a rerun in the same
+    or in a fresh process gives the same result. -/
+theorem rerun_deterministic {Inp : Type} (e : Est) (hok : e.rng.all Rng.ok = true) (sem : RSem e Inp)
+    (stream : Estimator.Val → Nat → Estimator.Val) (s : Store) (x : Inp) (g ent ent' : Estimator.Val) :
+    sem.fit stream s x g ent = sem.fit stream s x g ent' := by
+  unfold RSem.fit
+  rw [draws_indep e hok stream s g ent ent']
+
+/-- … and conversely a source that is not `ok` and is not a generator attribute (`entropy`, `cRand`) does change the
+    draws with the uncontrollable argument: the classification is tight. (A generator attribute, `atInit`, is a matter
+    of the store: it makes `coreOK` fail, see the Louvain witness above.) -/
+theorem uncontrolled_source_changes_draws (r : Rng) (hr : r.ok = false) (hinit : ∀ a, r ≠ .atInit a) :
+    ∃ (stream : Estimator.Val → Nat → Estimator.Val) (s : Store) (g ent ent' : Estimator.Val) (k : Nat),
+      r.draw stream s g ent k ≠ r.draw stream s g ent' k :=
+  ⟨fun seed _ => seed, fun _ => 0, 0, 1, 2, 0, draw_entropy_dep r hr hinit⟩
+
+example : (Rng.cRand "leiden_core.optimize_refine_core").ok = false ∧ (Rng.atFit "random_state").ok = true := by decide
+
 /-- a conforming implementation of the repaired Louvain shape: the label is the first draw of the generator that
     `fit` creates from the seed parameter -/
 def seededSem : Sem louvainSeeded Unit where
@@ -398,25 +502,24 @@ def seededSem : Sem louvainSeeded Unit where
     simp [h "random_state" (by simp [louvainSeeded])]
 
 /-- non-vacuity of `history_independent`: the repaired shape passes the check, a conforming implementation exists,
-    and `set_params` on the seed is a legal operation of its histories -/
+    and assigning another seed to the attribute (`est.random_state = 4`; the library's `set_params` itself refuses the names
+    `random_state` and `verbose`) is a legal operation of its histories -/
 example : louvainSeeded.coreOK = true ∧ "random_state" ∈ louvainSeeded.setable := by decide
 
 example : seededSem.fit (seededSem.run (louvainSeeded.fresh (fun _ => 0) (fun _ => 3)) [.fit (), .setParam "random_state" 4, .fit ()]) () "labels_"
     = seededSem.fit (louvainSeeded.fresh (fun _ => 0) (fun _ => 4)) () "labels_" := by decide
 
-/-- The pinned Louvain shape: `__init__` creates the generator, `fit` draws from it and so moves it. The position
-    of the generator is the attribute `random_state`. -/
-def pinnedFit (s : Store) : Store := fun a =>
-  if a = "labels_" then draw 3 (s "random_state")
-  else if a = "random_state" then s "random_state" + 1
-  else s a
-
-/-- **The pinned Louvain/Leiden seeding is history dependent**: the description fails the check (`fit` reads the
-    generator attribute it advances), and for the implementation above a second `fit` on the same input returns
-    another label than the first `fit` of a fresh object with the same seed. -/
-theorem pinned_louvain_history_dependent :
-    louvainPinned.coreOK = false ∧
-    pinnedFit (pinnedFit (fun _ => 0)) "labels_" ≠ pinnedFit (fun _ => 0) "labels_" := by decide
+/-- (witness kept from the pinned tree, repaired by 4f075d8e: an `example`, not a counted theorem) The pinned Louvain /
+    Leiden seeding — the generator created by `__init__` is the attribute `random_state`, `fit` reads it and advances
+    it — fails the check, and `coreOK_tight`'s construction gives an implementation *conforming to that description*
+    (`counterSem`) for which a second `fit` differs from the first `fit` of a fresh object. -/
+example : louvainPinned.coreOK = false ∧
+    ∃ (sem : Sem louvainPinned Unit),
+      sem.fit (sem.run (louvainPinned.fresh (fun _ => 0) (fun _ => 0)) [.fit ()]) () "random_state" ≠
+        sem.fit (louvainPinned.fresh (fun _ => 0) (fun _ => 0)) () "random_state" :=
+  ⟨by decide,
+   counterSem louvainPinned "random_state" (by decide) (by decide) (by decide),
+   counter_witness louvainPinned "random_state" (by decide) (by decide) (by decide)⟩
 
 /-! ## (C) `check_random_state` -/
 
